@@ -1,7 +1,8 @@
 #!/bin/bash
 # tools/seedsuite.sh <prop>...  -- run the pinned test suite on each seeded worktree, one at a time, and compare with BASELINE stable_pass
-for p in "$@"; do
-  wt=/tmp/seed_$p; out=/verif/seeded/$p
+# an argument may be <id>=<worktree> (default worktree: /tmp/seed_<id>)
+for a in "$@"; do
+  p=${a%%=*}; wt=/tmp/seed_$p; [ "$a" != "$p" ] && wt=${a#*=}; out=/verif/seeded/$p
   (cd $wt && PYTHONPATH=$wt nice -n 10 timeout 5000 /venv/bin/python -m pytest -q -p no:cacheprovider --timeout=900 --continue-on-collection-errors --junitxml=$out/suite.xml > $out/suite.log 2>&1)
   python3 /verif/tools/suitecmp.py $out/suite.xml > $out/suite.txt 2>&1
   echo "$p: $(cat $out/suite.txt | cut -c1-300)"
